@@ -61,6 +61,59 @@ func genMatchTarget(r *Rng, allowNeg bool) []Frag {
 	return fs
 }
 
+// diffsUnderCaptured: the callbacks present in exactly one of got / want all have a path at or below
+// a container that the part of a filter target in front of its filter selects.
+func diffsUnderCaptured(targets [][]Frag, doc any, got, want string) bool {
+	var captured []string
+	for _, t := range targets {
+		for i, f := range t {
+			if f.Kind != "f" {
+				continue
+			}
+			for _, loc := range BuildExpr(t[:i]).Locate(doc, 0) {
+				vs := loc.Get(doc)
+				if len(vs) == 1 {
+					switch vs[0].(type) {
+					case []any, map[string]any:
+						captured = append(captured, strings.TrimSuffix(npathSexp(loc), ")"))
+					}
+				}
+			}
+			break
+		}
+	}
+	set := func(s string) map[string]bool {
+		m := map[string]bool{}
+		for _, e := range strings.Split(s, " ; ") {
+			if e != "" {
+				m[e] = true
+			}
+		}
+		return m
+	}
+	g, w := set(got), set(want)
+	under := func(entry string) bool {
+		path := strings.TrimSuffix(strings.SplitN(entry, " | ", 2)[0], ")")
+		for _, c := range captured {
+			if path == c || strings.HasPrefix(path, c+" ") {
+				return true
+			}
+		}
+		return false
+	}
+	for e := range g {
+		if !w[e] && !under(e) {
+			return false
+		}
+	}
+	for e := range w {
+		if !g[e] && !under(e) {
+			return false
+		}
+	}
+	return true
+}
+
 func suiteMatchDoc(tier string, seed uint64, model string) *Report {
 	rep := &Report{Property: "C17", Tier: tier, Seed: seed}
 	r := NewRng(seed)
@@ -125,6 +178,25 @@ func suiteMatchDoc(tier string, seed uint64, model string) *Report {
 		} else {
 			cases = append(cases, cs{[][]Frag{{{Kind: "R"}, {Kind: "c", Key: "a"}, {Kind: "n", N: r.Intn(m)}}}, map[string]any{"a": arr, "true": "null"}, false})
 		}
+	}
+	// two targets with one prefix, one continuing with a filter, on documents where the prefix leads
+	// to a scalar, an empty container or a container
+	for i := 0; i < n/40; i++ {
+		flt := Frag{Kind: "f", Eq: &Eqn{Kind: "bin", Op: "eq", A: &Eqn{Kind: "p", Path: []Frag{{Kind: "A"}, {Kind: "c", Key: "a"}}}, B: &Eqn{Kind: "v", Const: int64(2)}}}
+		vals := []any{int64(7), "x", nil, []any{}, map[string]any{}, []any{map[string]any{"a": int64(2)}, map[string]any{"a": int64(1)}}, true}
+		pre := [][]Frag{{{Kind: "R"}, {Kind: "c", Key: "a"}}, {{Kind: "R"}, {Kind: "W"}}, {{Kind: "R"}, {Kind: "n", N: 0}}}[r.Intn(3)]
+		withF := append(append([]Frag(nil), pre...), flt)
+		ts := [][]Frag{withF, pre}
+		if r.Bool() {
+			ts = [][]Frag{pre, withF}
+		}
+		var d any
+		if pre[1].Kind == "c" {
+			d = map[string]any{"a": vals[r.Intn(len(vals))], "b": int64(3)}
+		} else {
+			d = []any{vals[r.Intn(len(vals))], vals[r.Intn(len(vals))], int64(1)}
+		}
+		cases = append(cases, cs{ts, d, false})
 	}
 	var reqs []string
 	for _, c := range cases {
@@ -228,7 +300,9 @@ func suiteMatchDoc(tier string, seed uint64, model string) *Report {
 						}
 						xs = saved
 					}
-					if alone {
+					// and every callback that differs lies at or below a container captured for a filter
+					// target (the recorded behaviour concerns locations inside such a container only)
+					if alone && diffsUnderCaptured(c.targets, c.doc, got, want) {
 						class = "filter-target-with-other-target"
 					}
 				}
